@@ -226,6 +226,19 @@ def sfcf_partial_number_cut(fs, call, fsobj, rel, k):
     return True
 
 
+def sfcf_used_end(fs, call, fsobj, rel, rep, cfg):
+    """Byte offset just behind the last number the call uses from the per-configuration file rel (separate / compact layout)."""
+    corr = SF.corr_by_name(fs, call['name'])
+    w2 = None if corr['type'] == 'bi' else call['wf2']
+    nums = SF.numbers(fs, fs['reps'][rep], cfg, corr, call['noffset'], call['wf'], w2)
+    last = nums[-1][1 if call.get('im') else 0]
+    text = fsobj.files[rel].decode()
+    p = text.find(last)
+    if p < 0 or text.find(last, p + 1) >= 0:
+        raise RuntimeError('harness: used number %r not found exactly once in %s' % (last, rel))
+    return p + len(last)
+
+
 def judge(family, fs, call, fsobj, rel, k, path):
     """path holds the set with `rel` truncated to k bytes.  Returns (outcome label, non-trivial)."""
     mod = FAMILIES[family][0]
@@ -238,7 +251,11 @@ def judge(family, fs, call, fsobj, rel, k, path):
     ncomp = fsobj.complete_before(rel, k)
     if family in PER_CFG_FILES:
         cfg = fsobj.records[rel][0][2]
-        cands = [('complete_result', dict(drop=None)), ('without_cut_cfg', dict(drop=({rep: [cfg]} if mod is SF else [cfg])))]
+        cands = [('without_cut_cfg', dict(drop=({rep: [cfg]} if mod is SF else [cfg])))]
+        # the complete result is a correct answer only if every number the call uses from this file lies before the cut
+        # (sfcf: text position of the last used number of the requested block; hdf5 container: not decidable from outside)
+        if mod is not SF or k >= sfcf_used_end(fs, call, fsobj, rel, rep, cfg):
+            cands.insert(0, ('complete_result', dict(drop=None)))
     else:
         total = len(fsobj.records[rel])
         cands = [('prefix', dict(limit={rep: ncomp}))]
